@@ -362,6 +362,9 @@ fn deep_cuts(label: &str, doc: &Doc, thorough: bool) -> Vec<Tree> {
     let mut variants = variants;
     variants.push(("backslash-t-n-r-quoted", ["a/tab/", "b/new/", "c/rec/"], true, '\\'));
     variants.push(("backslash-t-n-r-bare", ["a/tab/", "b/new/", "c/rec/"], false, '\\'));
+    // directory names that begin with a digit (a quoted name may begin with one)
+    variants.push(("digit-directories", ["2024_09/", "01/", "3x/"], true, '/'));
+    variants.push(("digit-directories-backslash", ["2024_09/", "01/", "3x/"], true, '\\'));
     for pp in &ps {
         let n = doc.root.at(pp).children.len();
         if n > 5 {
@@ -778,6 +781,51 @@ pub fn run(tier: &str) -> Run {
             run.sample(json!({"label": trees[i].label, "files": trees[i].files.iter().map(|f| (f.0.clone(), short(&f.1, 200))).collect::<Vec<_>>()}));
         }
     }
+    // the main file named without a directory part, the working directory being its directory (serial: the working directory
+    // is a property of the process): loading must give the model of the flattened text
+    {
+        let wd = root.join("barename");
+        let mut n = 0u64;
+        for (i, t) in trees.iter().enumerate() {
+            if i % 7 != 0 && !t.class.contains("backslash") {
+                continue;
+            }
+            if t.a2ml_include {
+                continue;
+            }
+            n += 1;
+            let _ = std::fs::remove_dir_all(&wd);
+            if materialise(&wd, t).is_err() || std::env::set_current_dir(&wd).is_err() {
+                run.machinery("cannot prepare the bare-name case");
+                break;
+            }
+            let r = guard(|| (a2lfile::load(&t.files[0].0, None, false), a2lfile::load_from_string(&t.flattened, None, false)));
+            let _ = std::env::set_current_dir(&empty_cwd);
+            run.evaluations += 1;
+            run.transitions += 2;
+            let verdict = match r {
+                Err(p) => Some(("panic".to_string(), p)),
+                Ok((Ok((f, _)), Ok((ff, _)))) => {
+                    if f != ff {
+                        Some(("load-differs-from-flattened".to_string(), "main file given by its bare name: the model differs from the model of the flattened text".to_string()))
+                    } else {
+                        None
+                    }
+                }
+                Ok((Err(e), Ok(_))) => Some(("load-fails".to_string(), format!("main file given by its bare name (working directory = its directory): {e}"))),
+                Ok((_, Err(_))) => None,
+            };
+            match verdict {
+                None => run.outcome("bare main file name: transparent"),
+                Some((o, w)) => {
+                    let key = if o == "panic" { format!("C16/panic {}", vcore::explore::panic_key(&w)) } else { format!("C16/{o}/bare-main-name:{}", t.class) };
+                    run.violation(key, format!("{}: {w}", t.label), json!({"files": t.files, "flattened": t.flattened, "includes": t.includes, "a2ml_include": t.a2ml_include, "class": t.class, "bare_main_name": true}));
+                }
+            }
+        }
+        let _ = n;
+        run.require("bare main file name: transparent", 100);
+    }
     // faults, each in a child process
     let exe = std::env::current_exe().ok();
     for (idx, (label, _, expect_err)) in fault_trees().iter().enumerate() {
@@ -852,7 +900,25 @@ pub fn replay(v: &Value) -> Result<String, String> {
     let root = scratch_root();
     let _ = std::fs::create_dir_all(root.join("cwd"));
     let _ = std::env::set_current_dir(root.join("cwd"));
-    let r = eval(&t, &root.join("w"));
+    let r = if v["bare_main_name"].as_bool().unwrap_or(false) {
+        let wd = root.join("barename");
+        let _ = materialise(&wd, &t);
+        let _ = std::env::set_current_dir(&wd);
+        match guard(|| (a2lfile::load(&t.files[0].0, None, false), a2lfile::load_from_string(&t.flattened, None, false))) {
+            Err(p) => Err(("panic".to_string(), p)),
+            Ok((Ok((f, _)), Ok((ff, _)))) => {
+                if f == ff {
+                    Ok("transparent")
+                } else {
+                    Err(("load-differs-from-flattened".to_string(), "models differ".to_string()))
+                }
+            }
+            Ok((Err(e), _)) => Err(("load-fails".to_string(), e.to_string())),
+            Ok((_, Err(e))) => Err(("machinery".to_string(), e.to_string())),
+        }
+    } else {
+        eval(&t, &root.join("w"))
+    };
     let _ = std::env::set_current_dir("/");
     let _ = std::fs::remove_dir_all(&root);
     match r {
